@@ -20,6 +20,7 @@ func init() {
 		Title: "List and Array behave as an ordinal-indexed sequence under every history",
 		Rule: "PRNG-generated histories (constructor + 1..40 operations with hostile indices, slots, ranges and operand kinds: list, array, empty, spy, receiver itself, view of the receiver) run in lock-step against a Go-slice model; " +
 			"after every call every read path (size, emptiness, array view, forward/backward iteration, GetValue at every +/- index) is compared. " +
+			"Long sequences: a List grown to a length around a power of two (64..4096, or any length up to 5000) by appends interleaved with inserts, removals, updates and range operations, compared with the model at checkpoints, at the power of two itself and at the end. " +
 			"distinct_nontrivial = distinct hashes of (element type, kind, model state before the call, operation, argument class, outcome class) taken only after the history contains a successful mutation.",
 		Assumptions: []string{
 			"NaN elements are excluded (C07/C08)",
@@ -42,6 +43,8 @@ func init() {
 			eng(kind, seq.AnyDom(3, 3), 10000, 200000),
 		)
 	}
+	p.Engines = append(p.Engines, &core.Engine{Name: "list/long-sequences", Count: core.FixedCount(400, 6000), CPULimit: 120,
+		Run: func(c *core.Ctx, idx int) { seq.RunC01Large(c) }})
 	p.Repro = map[string]func() (bool, string){
 		"c01.insert-slot":    seq.ReproInsertSlot,
 		"c01.insert-empty":   seq.ReproInsertEmpty,
